@@ -71,6 +71,11 @@ def units(tier):
     for b in range(2):
         yield {"leg": "meta", "b": b}
     yield {"leg": "meta-cli"}
+    # bin-id columns of every integer dtype on tables just large enough that bin1*n_bins+bin2 leaves the dtype (anything computed
+    # from the ids in their own dtype wraps there), rows given sorted / reversed / as a dict; count values of both signs
+    for dt, n in (("int8", 13), ("uint8", 17), ("int16", 190), ("uint16", 260), ("int32", 46400), ("uint32", 65600), ("int64", 13), ("uint64", 13)):
+        for symm in (True, False):
+            yield {"leg": "idtypes", "dtype": dt, "n": n, "symm": symm}
 
 
 # ---- shared read-back oracle ----------------------------------------------------------------
@@ -552,8 +557,84 @@ def _samepath(R, unit, only):
         scratch.rm(p)
 
 
+def _idtypes(R, unit, only):
+    import cooler
+    dt, n, symm = unit["dtype"], unit["n"], unit["symm"]
+    w = 3
+    bins = [("chr2", i * w, (i + 1) * w) for i in range(n - 2)] + [("chr10", 0, w), ("chr10", w, 2 * w - 1)]
+    bdf = build.bins_df(bins)
+    cells = sorted({(0, 0), (0, 1), (0, n - 1), (1, 2), (1, n - 2), (n // 2, n // 2), (n // 2, n - 1), (n - 3, n - 2), (n - 2, n - 2), (n - 2, n - 1), (n - 1, n - 1)}
+                   | ({(n - 1, 0), (n - 1, n - 2), (n // 2, 1), (2, 1)} if not symm else set()))
+    for signed in (False, True):
+        pix = {c: {"count": (alpha.value(7, c[0] % 7, c[1] % 7) + 1) * (-1 if signed and (c[0] + c[1]) % 2 else 1)} for c in cells}
+        for form in ("frame-sorted", "frame-reversed", "dict-reversed", "chunks"):
+            inner = {"signed": signed, "form": form}
+            if only is not None and only != inner:
+                continue
+            keys = sorted(pix)
+            if form.endswith("reversed"):
+                keys = keys[::-1]
+            d = {"bin1_id": np.array([k[0] for k in keys], dtype=dt), "bin2_id": np.array([k[1] for k in keys], dtype=dt),
+                 "count": np.array([pix[k]["count"] for k in keys], dtype=np.int32)}
+            R.ev(1, 1)
+            R.add("states")
+            R.add("transitions", 3)
+            R.add("traces")
+            R.cls("idtypes:" + dt)
+            p = scratch.fresh()
+            try:
+                try:
+                    if form == "chunks":
+                        h = len(keys) // 2
+                        arg = iter([pd.DataFrame({c: v[:h] for c, v in d.items()}), pd.DataFrame({c: v[h:] for c, v in d.items()})])
+                    else:
+                        arg = d if form.startswith("dict") else pd.DataFrame(d)
+                    cooler.create_cooler(p, bdf, arg, symmetric_upper=symm, ordered=True)
+                except Exception as e:
+                    R.mismatch("create-raises:" + type(e).__name__, inner, f"{e!s:.300}")
+                    continue
+                if n <= 300:
+                    readback(R, inner, p, bins, pix, symm)
+                    continue
+                # large tables: pixel table and sparse full matrix only (a dense 65600 x 65600 array is out of reach)
+                try:
+                    clr = cooler.Cooler(p)
+                    df = clr.pixels()[:]
+                    got = {(a, b): c for a, b, c in zip(df["bin1_id"].tolist(), df["bin2_id"].tolist(), df["count"].tolist())}
+                    if list(zip(df["bin1_id"].tolist(), df["bin2_id"].tolist())) != sorted(pix) or got != {k: v["count"] for k, v in pix.items()}:
+                        R.mismatch("pixel-table!=input-records", inner, f"got={sorted(got.items())[:12]} want={sorted((k, v['count']) for k, v in pix.items())[:12]}")
+                        continue
+                    S = clr.matrix(balance=False, sparse=True)[:]
+                    gm = {(int(a), int(b)): int(c) for a, b, c in zip(S.row, S.col, S.data)}
+                    wm = {}
+                    for (i, j), v in pix.items():
+                        wm[(i, j)] = v["count"]
+                        if symm:
+                            wm[(j, i)] = v["count"]
+                    if gm != wm or S.nnz != len(wm):
+                        R.mismatch("full-matrix(sparse)!=completion", inner, f"differences={sorted(set(gm.items()) ^ set(wm.items()))[:8]}")
+                    for (i0, i1, j0, j1) in ((0, 3, n - 3, n), (n - 3, n, 0, 3), (n // 2, n // 2 + 1, 0, n)):
+                        A = clr.matrix(balance=False)[i0:i1, j0:j1]
+                        W = np.zeros((i1 - i0, j1 - j0))
+                        for (i, j), v in wm.items():
+                            if i0 <= i < i1 and j0 <= j < j1:
+                                W[i - i0, j - j0] = v
+                        if not np.array_equal(np.asarray(A, dtype=float), W):
+                            R.mismatch("full-matrix(dense)!=completion", {**inner, "window": [i0, i1, j0, j1]}, f"got={np.asarray(A).tolist()} want={W.tolist()}")
+                    v = h5ref.validate(p, "/")
+                    if v:
+                        R.mismatch("V:" + v[0].split(":")[1], inner, f"{v}")
+                except Exception as e:
+                    R.mismatch("read-raises:" + type(e).__name__, inner, f"{e!s:.300}")
+            finally:
+                scratch.rm(p)
+
+
 def run(unit, R, tier, only=None):
     leg = unit["leg"]
+    if leg == "idtypes":
+        _idtypes(R, unit, only)
+        return
     if leg == "samepath":
         _samepath(R, unit, only)
         return
